@@ -100,13 +100,32 @@ func c01Jobs(tier string) []string {
 	for _, j := range rawJobsC01(tier) {
 		jobs = append(jobs, j)
 	}
+	jobs = append(jobs, "loop")
 	return jobs
 }
+
+var c01LoopWrites = [][]int{{1}, {100}, {1460}, {1461}, {5000}, {70000}, {3, 3000, 1}, {200000}}
 
 func c01Run(job, tier string, deadline time.Time) *engine.Result {
 	r := &engine.Result{Exhaustive: true}
 	if strings.HasPrefix(job, "raw:") {
 		return rawRunJob(r, job, deadline)
+	}
+	if job == "loop" {
+		for _, v6 := range []bool{false, true} {
+			for _, ws := range c01LoopWrites {
+				r.Execs++
+				r.Nontrivial++
+				r.Transitions += int64(len(ws)) * 2
+				if m := c01Loopback(v6, ws); m != "" && len(r.Violations) < 4 {
+					r.Violations = append(r.Violations, engine.Violation{Property: "C01", Kind: "loopback", Key: "loopback:" + keyOf(fmt.Errorf("%s", m[strings.Index(m, "): ")+3:])), Detail: m, Job: job, Replay: engine.MustJSON(map[string]interface{}{"job": "loop", "v6": v6, "writes": ws})})
+				}
+			}
+		}
+		r.States = r.Execs + 1
+		r.Outcomes = []uint64{engine.Hash(job, len(r.Violations))}
+		r.Sample(map[string]interface{}{"loop": "one stack connected to itself over the repository's loopback link, IPv4 and IPv6, 8 write patterns, data both ways, half-close both ways"})
+		return r
 	}
 	var i, n int
 	var rest string
@@ -122,6 +141,17 @@ func c01Run(job, tier string, deadline time.Time) *engine.Result {
 }
 
 func c01Replay(rp json.RawMessage) *engine.Violation {
+	var lp struct {
+		Job    string
+		V6     bool
+		Writes []int
+	}
+	if json.Unmarshal(rp, &lp) == nil && lp.Job == "loop" {
+		if m := c01Loopback(lp.V6, lp.Writes); m != "" {
+			return &engine.Violation{Property: "C01", Kind: "loopback", Key: "loopback:" + keyOf(fmt.Errorf("%s", m[strings.Index(m, "): ")+3:])), Detail: m}
+		}
+		return nil
+	}
 	var er engine.EnvReplay
 	if json.Unmarshal(rp, &er) != nil {
 		return nil
